@@ -116,6 +116,8 @@ NOTES = {
  'C11-15': 'first missed: a parameter name REPEATED in one call (s=1, s=2; p, q, p; three times) for every name of the call matrix: every written argument counts and keeps its place',
  'C12-16': 'first missed: literals whose value is falsy in Python (0, 0.0, empty string) in every argument position must give the SQL skeleton and parameter count a truthy literal gives',
  'C09-15': 'first missed: one sub-expression occurring TWICE in a filter in every pair of operand contexts (parent operator x side, arithmetic and Boolean; sqlcommon.repeated_subterms, also fed to c01 / c02 / c03 where the rows decide) - state a printer keeps per node between two visits',
+ 'C06-15': 'first missed: geography contents with a lower / mixed-case SRID prefix, whitespace at the ends and around the semicolon, several semicolons, mixed-case WKT and random pieces - the content is carried verbatim',
+ 'C12-17': 'first missed: the function matrix fills the OTHER arguments with typed terms too (a call that returns a string, a string literal), not only a bare field of unknown type (contains(tolower(s1), null))',
  'C16-15': 'first missed: one visitor / transformer / dialect instance reused after 1, 30, 300+ traversals aborted by an exception from a handler must handle legal trees as a fresh instance does',
  'C19-11': 'first caught only through the tie: the re-layout recognises punctuation by its TEXT, so a tree that re-types the comma token is judged by the same whitespace-before-comma variants',
  'C20-4': 'first missed: accumulation histories (40-120 repetitions of one input, nine kinds that leave a parenthesis open) and extreme single inputs added',
@@ -133,7 +135,7 @@ def main():
     f"property in a scratch copy of /verif and writes `seeded/RESULTS.tsv`: {caught} of {n} are reported, {inp} with a failing input. Where a change was first missed (or caught only through a broken",
     "tie), the generator or the judge was strengthened (last column, regenerated by `harness/mkseedtable.py`) - the properties and the pass criteria were not touched. First-time detection per round",
     "(own check, before any strengthening): rounds 1-2 (47 seeds): the first misses are the ones marked in the last column (C03-3, C08-3, C12-2, C12-3, C12-4); round 3 (11 seeds): 7 with a failing input,",
-    "1 through the tie only, 3 missed; round 4 (20 seeds): 8 with a failing input, 3 through the tie only, 9 missed; round 5 (20 seeds): 10 with a failing input, 2 through the tie only, 7 missed, 1 crashed the translator; round 6 (20 seeds): 11 with a failing input, 3 through the tie only, 6 missed; round 7 (20 seeds): 13 with a failing input, 4 through the tie only, 3 missed; round 8 (20 seeds): 12 with a failing input, 1 through the tie only, 7 missed; round 9 (20 seeds): 13 with a failing input, 7 missed; round 10 (20 seeds): 8 with a failing input, 5 through the tie only, 7 missed; round 11 (20 seeds): 11 with a failing input, 9 missed; round 12 (20 seeds): 5 with a failing input, 3 through the tie only, 12 missed; round 13 (20 seeds): 13 with a failing input, 2 through the tie only, 5 missed; round 14 (20 seeds): 13 with a failing input, 1 through the tie only, 6 missed; round 15 (8 seeds, the properties with the most recent misses): 4 with a failing input, 4 missed; round 16 (6 seeds: C05 C09 C13 C17 C18 C20): 5 with a failing input, 1 missed - rounds 3 to 16 were asked to avoid every mechanism used before, and each miss named a",
+    "1 through the tie only, 3 missed; round 4 (20 seeds): 8 with a failing input, 3 through the tie only, 9 missed; round 5 (20 seeds): 10 with a failing input, 2 through the tie only, 7 missed, 1 crashed the translator; round 6 (20 seeds): 11 with a failing input, 3 through the tie only, 6 missed; round 7 (20 seeds): 13 with a failing input, 4 through the tie only, 3 missed; round 8 (20 seeds): 12 with a failing input, 1 through the tie only, 7 missed; round 9 (20 seeds): 13 with a failing input, 7 missed; round 10 (20 seeds): 8 with a failing input, 5 through the tie only, 7 missed; round 11 (20 seeds): 11 with a failing input, 9 missed; round 12 (20 seeds): 5 with a failing input, 3 through the tie only, 12 missed; round 13 (20 seeds): 13 with a failing input, 2 through the tie only, 5 missed; round 14 (20 seeds): 13 with a failing input, 1 through the tie only, 6 missed; round 15 (8 seeds, the properties with the most recent misses): 4 with a failing input, 4 missed; round 16 (12 seeds: C05 C06 C07 C09 C11 C12 C13 C14 C16 C17 C18 C20): 9 with a failing input, 3 missed - rounds 3 to 16 were asked to avoid every mechanism used before, and each miss named a",
     "blind spot of a GENERATOR or of a judge's scope (literal spellings, type-confusable contents, sequences on one instance, accumulation, an over-broad refusal rule, a schema feature), never of a theorem.", "",
     "| seed | file(s) | what it changes | caught by | note |", "|---|---|---|---|---|"]
     for d in sorted(glob.glob('/verif/seeded/*/')):
